@@ -438,8 +438,20 @@ class ArgumentParser:
         parser.add_argument("-c", nargs="?", dest=None)
         parser.add_argument("file", nargs="*")
 
-        # Add additional options for this specific compiler.
+        # A later rule for a flag (a user configuration extending a built-in
+        # compiler) replaces the earlier rule for that flag altogether: its
+        # default passes and its arity must not keep acting.
+        rules = []
         for option in self.compiler.parser:
+            for rule in rules:
+                rule["flags"] = [
+                    f for f in rule["flags"] if f not in option["flags"]
+                ]
+            rules.append(dict(option, flags=list(option["flags"])))
+        rules = [rule for rule in rules if rule["flags"]]
+
+        # Add additional options for this specific compiler.
+        for option in rules:
             kwargs = {k: v for k, v in option.items() if k != "flags"}
 
             # If a custom action, handle special-case for default passes.
@@ -465,7 +477,7 @@ class ArgumentParser:
         # -fopenmp=libomp); argparse would reject that as an error.
         valueless = {
             flag
-            for option in self.compiler.parser
+            for option in rules
             if option.get("action") in ["append_const", "store_const"]
             for flag in option["flags"]
         }
